@@ -13,7 +13,9 @@
        restore/rm/empty remove payload then info of exactly the selected entries (C13, C12, C10, C15);
    (e) trash-list itself changes nothing: it issues no mutating operation, every file system a run is consistent with is
        afterwards what it was (list_issues_no_mutation, list_changes_nothing). *)
-From TV Require Import Prelude.Str Prelude.PosixPath Codec.TrashInfo Prog.Prog Cmd.Put Cmd.Scan Cmd.ListCmd Proofs.ProgProofs World.World Proofs.ListReadOnly.
+From TV Require Import Prelude.Str Prelude.PosixPath Codec.TrashInfo Prog.Prog Cmd.Put Cmd.Scan Cmd.ListCmd Proofs.ProgProofs World.World Proofs.ListReadOnly Proofs.Independence Proofs.AsIfAbsent.
+From Coq Require Import List.
+Import ListNotations.
 Open Scope N_scope.
 
 (* looking is not touching: trash-list issues no mutating operation, so every file system a run is consistent with is afterwards
@@ -27,6 +29,20 @@ Theorem list_changes_nothing : forall o,
   all_runs (fun t _ => forall s s', wrun s t s' -> same s s') (list_main o).
 Proof. exact list_changes_nothing_lemma. Qed.
 Print Assumptions list_changes_nothing.
+
+(* (a) and (b) over EVERY run (AsIfAbsent.v): a run of the per-entry handler that begins with a successful read of a text carrying a Path
+   puts exactly one record on standard output - the date as read (question marks when undated), a blank, the location joined to the
+   volume, the payload path under --files; a run that begins with a failed read, or with a text without Path, puts nothing there *)
+Theorem readable_entry_exactly_one_record : forall o volume p t c rel t', lo_size o = false ->
+  run_of (print_trashinfo o volume p) t (Done tt) -> t = (ReadText p, RStr c) :: t' -> parse_path c = Some rel ->
+  map fst (filter stdout_ev t) = [Out false (list_record o volume p c rel)].
+Proof. exact list_entry_one_record_lemma. Qed.
+Print Assumptions readable_entry_exactly_one_record.
+
+Theorem unreadable_or_pathless_entry_no_record : forall o volume p t,
+  run_of (print_trashinfo o volume p) t (Done tt) -> pathless t -> filter stdout_ev t = [].
+Proof. exact list_pathless_silent. Qed.
+Print Assumptions unreadable_or_pathless_entry_no_record.
 
 Theorem one_entry_one_line : forall o volume p contents rel,
   lo_size o = false -> lo_files o = false -> parse_path contents = Some rel ->
